@@ -28,6 +28,10 @@ pub enum ReplyPlan {
     Empty,
     /// Explicit contents (blocks, next headers) -- used by C10.
     Custom { blocks: Vec<Vec<u8>>, next: Vec<Vec<u8>> },
+    /// A complete reply that also contains a block the request itself lists as processed (a
+    /// source that offers a block again), before or after up to `max_blocks` new blocks; no
+    /// headers are announced. The canister must refuse the known block and never hold it twice.
+    Reoffer { sel: u16, max_blocks: u8, first: bool },
 }
 
 #[derive(Clone, Debug)]
@@ -63,6 +67,8 @@ pub struct Source {
     pub log: Vec<LogEntry>,
     /// Blocks that were contained in some complete (or completed split) response.
     pub delivered: Vec<H32>,
+    /// Number of replies that offered an already processed block again.
+    pub reoffered: u64,
     /// Number of faults (rejects) injected so far.
     pub faults: usize,
     /// When set, the reply shape for an initial request is a function of the request contents
@@ -171,6 +177,23 @@ impl Source {
                             ReplyKind::Complete(n),
                             None,
                         )
+                    }
+                    ReplyPlan::Reoffer { sel, max_blocks, first } => {
+                        let n = (max_blocks.max(1) as usize).min(succ.len());
+                        let mut blocks: Vec<Vec<u8>> = succ[..n].iter().map(|b| b.bytes.clone()).collect();
+                        let known: Vec<&SrcBlock> = processed.iter().filter_map(|h| self.known.iter().find(|b| b.hash == *h)).collect();
+                        if !known.is_empty() {
+                            let k = known[pick(sel, known.len())].bytes.clone();
+                            self.reoffered += 1;
+                            if first {
+                                blocks.insert(0, k);
+                            } else {
+                                blocks.push(k);
+                            }
+                        }
+                        let total = blocks.len();
+                        let kind = if total == 0 { ReplyKind::NothingToOffer } else { ReplyKind::Complete(total) };
+                        (GetSuccessorsReply::Ok(GetSuccessorsResponse::Complete(GetSuccessorsCompleteResponse { blocks, next: vec![] })), kind, None)
                     }
                     ReplyPlan::Complete { max_blocks, announce } => {
                         let n = (max_blocks.max(1) as usize).min(succ.len());
@@ -499,7 +522,8 @@ pub fn plan_strategy(with_faults: bool) -> BoxedStrategy<ReplyPlan> {
     )
         .prop_map(|(pages, cuts, announce, reject_at)| ReplyPlan::Split { pages, cuts, announce, reject_at });
     if with_faults {
-        prop_oneof![5 => complete, 4 => split, 2 => Just(ReplyPlan::Reject), 1 => Just(ReplyPlan::Empty)].boxed()
+        let reoffer = (any::<u16>(), 1u8..3, any::<bool>()).prop_map(|(sel, max_blocks, first)| ReplyPlan::Reoffer { sel, max_blocks, first });
+        prop_oneof![10 => complete, 8 => split, 4 => Just(ReplyPlan::Reject), 2 => Just(ReplyPlan::Empty), 3 => reoffer].boxed()
     } else {
         prop_oneof![5 => complete, 3 => split, 1 => Just(ReplyPlan::Empty)].boxed()
     }
